@@ -348,9 +348,13 @@ package spec
 //@   ensures @complete forall a grammar.Terminal :: {a in t.terminals.table.dom} a in t.terminals.table.dom && len(defsOf(t, a)) == 1 ==> (exists j int :: 0 <= j && j < len(result) && result[j] == defsOf(t, a)[0])
 
 // A-CMP: grammar.CmpTerminal is generic.NewCompareFunc[Terminal]() (non-nil; read off the dependency's source).
+// The order of Definitions is total on distinct terminals: sort.Quick shuffles its input with a time-seeded
+// generator first, so any tie between two different definitions would come out in random order (C15).
 //@ func (t *SymbolTable) Definitions$1(lhs *TerminalDef, rhs *TerminalDef) int
 //@   requires lhs != nil && rhs != nil
 //@   assumes @A-CMP grammar.CmpTerminal != nil
+//@   ensures @total-on-distinct result == 0 ==> lhs.IsRegex == rhs.IsRegex && lhs.Terminal == rhs.Terminal
+//@   ensures @antisymmetric-kind result < 0 ==> !(lhs.IsRegex && !rhs.IsRegex)
 
 //@ func (t *SymbolTable) Terminals() []grammar.Terminal
 //@   requires tableOK(t)
